@@ -193,6 +193,15 @@ func (c *conn) sread() (f *Frag, err error) {
 
 	f.Peer.FragDoneNumber++
 
+	if f.Error.Nil() && f.RspBody[0] == '-' {
+		switch f.Peer.Type {
+		case codec.ReqMget, codec.ReqMset, codec.ReqDel:
+			// an error reply to one fragment fails the whole split request with that error;
+			// the merge helpers below only understand the success shapes
+			f.Error = codec.Error(f.RspBody)
+		}
+	}
+
 	if f.Error.Nil() {
 		switch f.Peer.Type {
 		case codec.ReqMget:
